@@ -671,7 +671,7 @@ class RsFindAllFunctions:
 # ====================================================================================== violation builder
 BuilderT = Rec("NestingViolationBuilder", cls=VB + "NestingViolationBuilder", rule_id=Str)
 OptPathT = Opt(PathT)
-CtxT = Rec("LintContext", file_path=OptPathT, file_content=Opt(Str), language=Str)
+CtxT = Rec("LintContext", file_path=OptPathT, file_content=Opt(Str), language=Str, metadata=Any)
 from contracts.c05_config import NestingConfigT  # noqa: E402  (record of NestingConfig; its contracts live in c05_config.py)
 
 RULE_ID = "nesting.excessive-depth"
@@ -694,6 +694,10 @@ class _SeverityValue(str):
 
 
 SEV_ERROR = _SeverityValue("error")   # Severity.ERROR, the only severity
+
+# same SMT sort as ViolationT (an EnumOf field is a string); natively the severity is the real Severity member
+from pyvc.api import EnumOf  # noqa: E402
+SevViolationT = ViolationT.extend(severity=EnumOf("src/core/types.py::Severity", pycls="src.core.types:Severity"))
 
 
 def depth_message(name, depth):
@@ -721,7 +725,7 @@ class GenerateSuggestion:
 
 
 @contract(VB + "NestingViolationBuilder.create_nesting_violation", props=["C01", "C12"],
-          types=dict(self=BuilderT, func=PyNode, max_depth=Int, config=NestingConfigT, context=CtxT), returns=ViolationT)
+          types=dict(self=BuilderT, func=PyNode, max_depth=Int, config=NestingConfigT, context=CtxT), returns=SevViolationT)
 class CreateNestingViolation:
     def requires(self, func, max_depth, config, context):
         return is_funcdef(func)
@@ -735,7 +739,7 @@ class CreateNestingViolation:
 
 @contract(VB + "NestingViolationBuilder.create_typescript_nesting_violation", props=["C01", "C12"],
           types=dict(self=BuilderT, func_info=FuncInfoT, max_depth=Int, config=NestingConfigT, context=CtxT, func_node=TSNode,
-                     func_name=Str, line=Int, column=Int), returns=ViolationT)
+                     func_name=Str, line=Int, column=Int), returns=SevViolationT)
 class CreateTsNestingViolation:
     def requires(self, func_info, max_depth, config, context):
         return func_info[0] is not None
@@ -751,7 +755,7 @@ class CreateTsNestingViolation:
 
 @contract(VB + "NestingViolationBuilder.create_rust_nesting_violation", props=["C01", "C12"],
           types=dict(self=BuilderT, func_info=FuncInfoT, max_depth=Int, config=NestingConfigT, context=CtxT, func_node=TSNode,
-                     func_name=Str, line=Int, column=Int), returns=ViolationT)
+                     func_name=Str, line=Int, column=Int), returns=SevViolationT)
 class CreateRsNestingViolation:
     def requires(self, func_info, max_depth, config, context):
         return func_info[0] is not None
@@ -769,7 +773,7 @@ SyntaxErrorT = Rec("SyntaxErrorInfo", lineno=Opt(Int), offset=Opt(Int), msg=Str)
 
 
 @contract(VB + "NestingViolationBuilder.create_syntax_error_violation", props=["C01", "C12"],
-          types=dict(self=BuilderT, error=SyntaxErrorT, context=CtxT), returns=ViolationT)
+          types=dict(self=BuilderT, error=SyntaxErrorT, context=CtxT), returns=SevViolationT)
 class CreateSyntaxErrorViolation:
     def ensures_points_at_the_error(self, error, context, result):
         return (result.rule_id == self.rule_id and result.file_path == path_text(context)
@@ -1061,19 +1065,57 @@ class CheckRust:
                           rs_verdicts(rs_functions(rust_root(content_of(context))), config.max_nesting_depth, RULE_ID, context))
 
 
-nesting_config_of = uf("nesting_config_of", [CtxT], NestingConfigT)
+def nesting_section(context):
+    """The ONLY configuration the rule consults: metadata["nesting"] of the file's context ({} when absent)."""
+    return (dict(context.metadata) if isinstance(context.metadata, dict) else {}).get("nesting", {})
 
 
-@contract(LI + "NestingDepthRule._load_config", props=["C01"], types=dict(self=RuleT, context=CtxT), returns=NestingConfigT,
-          assumed="generic loader load_linter_config(context, 'nesting', NestingConfig) (contracted under C05 with a "
-                  "generic config record): the NestingConfig that NestingConfig.from_dict builds from the `nesting` section "
-                  "and the file's language (max_nesting_depth >= 1 by __post_init__); an uninterpreted function of the context")
+def nesting_lang_section(context):
+    return nesting_section(context).get(context.language, {}) if context.language != "" else {}
+
+
+def nesting_limit_of(context):
+    """Property text / docs: <language>.max_nesting_depth over max_nesting_depth over the default 4, for THIS file's
+    language; 4 when there is no (dict) section."""
+    return nesting_lang_section(context).get("max_nesting_depth", nesting_section(context).get("max_nesting_depth", 4)) \
+        if isinstance(nesting_section(context), dict) else 4
+
+
+def nesting_section_ok(context):
+    return implies(isinstance(nesting_section(context), dict),
+                   isinstance(nesting_lang_section(context), dict)
+                   and isinstance(nesting_lang_section(context).get("max_nesting_depth", 0), int)
+                   and isinstance(nesting_section(context).get("max_nesting_depth", 0), int)
+                   and isinstance(nesting_section(context).get("enabled", True), bool))
+
+
+@opaque
+def nesting_cfg(context: CtxT) -> NestingConfigT:
+    """THE configuration of a file (a function of its context only)."""
+    return mk(NestingConfigT, max_nesting_depth=nesting_limit_of(context),
+              enabled=nesting_section(context).get("enabled", True) if isinstance(nesting_section(context), dict) else True)
+
+
+@contract(LI + "NestingDepthRule._load_config", props=["C01"],
+          types=dict(self=RuleT, context=CtxT, metadata=Any, config_dict=Any, language=Opt(Str)),
+          returns=NestingConfigT, raises=["ValueError"], inline=["load_linter_config"])
 class NestingLoadConfig:
-    def value(self, context):
-        return nesting_config_of(context)
+    """Stateless: the limit of a file is a function of its context's `nesting` section and ITS language only; a limit
+    below 1 is rejected."""
+    def requires(self, context):
+        return nesting_section_ok(context)
 
-    def ensures_validated(self, context, result):
-        return result.max_nesting_depth >= 1
+    def raises_when(self, context):
+        return nesting_limit_of(context) <= 0
+
+    def reveals(self, context):
+        return reveal(nesting_cfg, context)
+
+    def value(self, context):
+        return nesting_cfg(context)
+
+    def ensures_limit_of_this_language(self, context, result):
+        return result.max_nesting_depth == nesting_limit_of(context) and result.max_nesting_depth >= 1
 
 
 # ====================================================================================== property-level lemmas
@@ -1243,3 +1285,39 @@ def nesting_limit_per_language(config, language, other, section):
     b = call(NEST_FROM_DICT, config2, language)
     return a.max_nesting_depth == nest_pick(config, language) and a.max_nesting_depth >= 1 \
         and b.max_nesting_depth == a.max_nesting_depth
+
+
+# ====================================================================================== the rule's entry point (inherited)
+BASE_CHECK = "src/core/base.py::MultiLanguageLintRule.check"
+
+
+def nesting_verdicts(context, limit):
+    """The verdicts of one file under the given limit, by language (Python / TypeScript+JavaScript / Rust; else nothing)."""
+    return py_verdicts(py_functions(py_root(content_of(context))), limit, RULE_ID, context) if context.language == "python" else (
+        ([] if ts_root(content_of(context)) is None else ts_verdicts(ts_functions(ts_root(content_of(context))), limit, RULE_ID, context))
+        if context.language in ("typescript", "javascript") else (
+            ([] if rust_root(content_of(context)) is None
+             else rs_verdicts(rs_functions(rust_root(content_of(context))), limit, RULE_ID, context))
+            if context.language == "rust" else []))
+
+
+@contract(BASE_CHECK + "~nesting", props=["C01"], types=dict(self=RuleT, context=CtxT, config=NestingConfigT),
+          returns=SeqOf(ViolationT), raises=["ValueError"], inline=["has_file_content", "_dispatch_by_language"])
+class NestingRuleCheck:
+    """NestingDepthRule.check (inherited from MultiLanguageLintRule, verified here for the nesting rule): nothing without
+    content or when disabled; else the verdicts of the file's language under the limit of THAT language -- a function of
+    this context only (no state carried from one file to the next)."""
+    def requires(self, context):
+        return nesting_section_ok(context) and self._violation_builder.rule_id == RULE_ID \
+            and implies(ts_root(content_of(context)) is not None, fn_nodes_ok(ts_functions(ts_root(content_of(context))))) \
+            and implies(rust_root(content_of(context)) is not None, fn_nodes_ok(rs_functions(rust_root(content_of(context)))))
+
+    def raises_when(self, context):
+        return context.file_content is not None and nesting_limit_of(context) <= 0
+
+    def reveals(self, context):
+        return reveal(nesting_cfg, context)
+
+    def ensures_verdicts_under_this_languages_limit(self, context, result):
+        return result == (nesting_verdicts(context, nesting_limit_of(context))
+                          if context.file_content is not None and nesting_cfg(context).enabled else [])
